@@ -28,8 +28,8 @@ Proof.
   rewrite Hk in H.
   unfold db_delete, bind, statement, gets, set_tbl, modify in H. cbn in H.
   unfold upd_inst, modify in H. cbn in H.
-  unfold cache_expire, bind, gets in H. cbn [fst snd] in H.
-  destruct (negb (c_present (xL (caches s)))); [|destruct (negb (doCache cfg0))];
+  unfold cache_purge, bind, gets in H. cbn [fst snd] in H.
+  destruct (negb (c_present (xL (caches s))));
     cbn in H; inversion H; subst; cbn; (split; [reflexivity|]); unfold tbl; cbn; apply assoc_remove_same.
 Qed.
 
